@@ -157,6 +157,17 @@ theorem C16_otsu_histogram_total (c : Ch) (tm : Bool) (mn mx : Int) (pixels : Li
     (h : buildHist c tm mn mx pixels = .ok hist) : hist.length = 256 ∧ cumW hist 256 = (pixels.length : Int) :=
   buildHist_total c tm mn mx pixels hist h
 
+/-- the histogram `otsu_impl` builds counts, in bin j, exactly the pixels whose bin (the translated index expression, or the pixel
+    value itself for uint8) is j; every pixel falls into one of the 256 bins -/
+theorem C16_otsu_histogram_counts (c : Ch) (tm : Bool) (mn mx : Int) (pixels : List Int) (hist : List Nat)
+    (h : buildHist c tm mn mx pixels = .ok hist) (j : Nat) :
+    hist.getD j 0 = (pixels.filter (inBin c tm mn mx j)).length
+    ∧ ∀ px ∈ pixels, ∃ i : Int, binOf c tm mn mx px = .ok i ∧ 0 ≤ i ∧ i < 256 :=
+  buildHist_counts c tm mn mx pixels hist h j
+
+set_option maxRecDepth 100000 in
+example : buildHist .u8 true 255 0 [7, 7, 9] = .ok ((List.replicate 7 0 ++ [2, 0, 1]) ++ List.replicate 246 0) := by rfl
+
 /-- end to end: the value `otsu_impl` hands to `threshold_binary` is the first variance-maximising bin of the histogram of
     the pixels (rescaled to the scanned range for unsigned 16-bit sources), for every image of every size -/
 theorem C16_otsu_threshold_maximises (c : Ch) (pixels : List Int) (v : Int) (h : otsuValue c true pixels = .ok v) :
@@ -433,6 +444,50 @@ theorem C16_symmetric_se (ker : List Int) (ks cy cx : Nat)
   · have := one q p hqp; rw [hpq] at this; cases this
   · have := one p q hpq; rw [hqp] at this; cases this
 
+
+/-- duality on the `morph_impl` model itself: dilating the complement K − src is the complement of the erosion and vice versa,
+    for ANY structuring element, centre, image size and pixel -/
+theorem C16_morph_duality (src : Int → Int → Int) (w h : Nat) (ker : List Int) (ks cy cx : Nat) (K : Int) (x y : Nat) :
+    morphAt (fun a b => K - src a b) w h ker ks cy cx true x y = K - morphAt src w h ker ks cy cx false x y
+    ∧ morphAt (fun a b => K - src a b) w h ker ks cy cx false x y = K - morphAt src w h ker ks cy cx true x y := by
+  have A := C16_morph_is_erode_dilate (fun a b => K - src a b) w h ker ks cy cx x y
+  have B := C16_morph_is_erode_dilate src w h ker ks cy cx x y
+  have D := C16_erode_dilate_duality (imagePts w h) (nbK ker ks cy cx) (fun p => src p.1 p.2) K ((x : Int), (y : Int))
+  exact ⟨by rw [A.2, B.1]; exact D.1, by rw [A.1, B.2]; exact D.2⟩
+
+/-- the opening / closing laws on the `morph_impl` model itself: for a point-symmetric structuring element, every image size and
+    every pixel, dilate(erode(src)) ≤ src ≤ erode(dilate(src)) -/
+theorem C16_model_opening_le_src_le_closing (src : Int → Int → Int) (w h : Nat) (ker : List Int) (ks cy cx : Nat)
+    (hsym : ∀ r c, r < ks → c < ks → ker.getD (r * ks + c) 0 ≠ 0 →
+      2 * cy - r < ks ∧ 2 * cx - c < ks ∧ r ≤ 2 * cy ∧ c ≤ 2 * cx ∧ ker.getD ((2 * cy - r) * ks + (2 * cx - c)) 0 ≠ 0)
+    (x y : Nat) (hx : x < w) (hy : y < h) :
+    morphAt (fun a b => morphAt src w h ker ks cy cx false a.toNat b.toNat) w h ker ks cy cx true x y ≤ src x y
+    ∧ src x y ≤ morphAt (fun a b => morphAt src w h ker ks cy cx true a.toNat b.toNat) w h ker ks cy cx false x y := by
+  have hp : ((x : Int), (y : Int)) ∈ imagePts w h := (mem_imagePts w h _).mpr ⟨by simp only; omega, by simp only; omega, by simp only; omega, by simp only; omega⟩
+  have hpt : ∀ q ∈ imagePts w h, q = ((q.1.toNat : Int), (q.2.toNat : Int)) := by
+    intro q hq
+    have := (mem_imagePts w h q).mp hq
+    unfold inImg at this
+    apply Prod.ext <;> simp only <;> omega
+  have hE : ∀ q ∈ imagePts w h, morphAt src w h ker ks cy cx false q.1.toNat q.2.toNat
+      = erodeP (imagePts w h) (nbK ker ks cy cx) (fun p => src p.1 p.2) q := by
+    intro q hq
+    rw [(C16_morph_is_erode_dilate src w h ker ks cy cx q.1.toNat q.2.toNat).1, ← hpt q hq]
+  have hD : ∀ q ∈ imagePts w h, morphAt src w h ker ks cy cx true q.1.toNat q.2.toNat
+      = dilateP (imagePts w h) (nbK ker ks cy cx) (fun p => src p.1 p.2) q := by
+    intro q hq
+    rw [(C16_morph_is_erode_dilate src w h ker ks cy cx q.1.toNat q.2.toNat).2, ← hpt q hq]
+  have L := C16_opening_le_src_le_closing (imagePts w h) (nbK ker ks cy cx) (fun p => src p.1 p.2)
+    (fun p q _ _ => C16_symmetric_se ker ks cy cx hsym p q) ((x : Int), (y : Int)) hp
+  constructor
+  · rw [(C16_morph_is_erode_dilate _ w h ker ks cy cx x y).2,
+      dilateP_congr (imagePts w h) (nbK ker ks cy cx) _ (erodeP (imagePts w h) (nbK ker ks cy cx) (fun p => src p.1 p.2))
+        ((x : Int), (y : Int)) (hE _ hp) hE]
+    exact L.1
+  · rw [(C16_morph_is_erode_dilate _ w h ker ks cy cx x y).1,
+      erodeP_congr (imagePts w h) (nbK ker ks cy cx) _ (dilateP (imagePts w h) (nbK ker ks cy cx) (fun p => src p.1 p.2))
+        ((x : Int), (y : Int)) (hD _ hp) hD]
+    exact L.2
 
 /-- regression witness of the fixed finding C16-morph-se-transposed (f4ff363): a horizontal 1×3 line (a symmetric
     structuring element) dilates a single bright pixel HORIZONTALLY, in the model of the code and in the Spec alike -/
